@@ -9,7 +9,7 @@ Shape of the algorithm (= the shape of `build`):
   creating jump-table placeholders and join entries at the moments `build` creates them;
 * `layoutRoots` pops the most recently pushed root, patches its jump entry with the current
   instruction count, emits it, appends its terminators "unless the last instruction, emitted by this
-  same root, already equals it" (the rule of commit 3cee692, modelled literally), and goes on until no
+  same root, is an `EndExpression` equal to it" (the rule of commits 3cee692 + 7afc7c5, modelled literally), and goes on until no
   root is pending.
 Constants are allocated sequentially without interning (the tie compares them by value).
 `done` is a ghost field: the roots laid out so far, used to state the canonical-labelling part of
@@ -68,6 +68,22 @@ end LState
 def armRoots (cur join : Nat) (items : List (Expr F × Nat)) : List (Root F) :=
   (items.map (fun it => (⟨.code it.1, it.2, [(.jumpTo, some join)], cur⟩ : Root F))).reverse
 
+/-- after the condition of `c ?> t` (not under an else-chain): `JumpIf j; PutValue`, the join entry, and the
+body `t` as a pending root that returns to the join -/
+def condTail (cur : Nat) (onTrue : Bool) (t : Expr F) (s1 : LState F) : LState F :=
+  let j := s1.jumps.size
+  let s2 := ((s1.pushJump 0).push (jumpIf onTrue) (some j)).push .putValue none
+  let join := s2.jumps.size
+  (s2.pushRoot ⟨.code t, j, [(.jumpTo, some join)], cur⟩).pushJump s2.instrs.size
+
+/-- after the left operand of `&&` / `||`: `And j` / `Or j`, the join entry, and the right operand as a pending
+root terminated by `Tis; JumpTo join` -/
+def logicalTail (cur : Nat) (instr : Instruction) (r : Expr F) (s1 : LState F) : LState F :=
+  let j := s1.jumps.size
+  let s2 := (s1.pushJump 0).push instr (some j)
+  let join := s2.jumps.size
+  (s2.pushRoot ⟨.code r, j, [(.tis, none), (.jumpTo, some join)], cur⟩).pushJump s2.instrs.size
+
 /-- end of an else-chain: the join entry, then the arm bodies as pending roots -/
 def finishChain (cur : Nat) (s2 : LState F) (items : List (Expr F × Nat)) : LState F :=
   match items with
@@ -95,30 +111,15 @@ def emit (root cur : Nat) : Expr F → LState F → LState F
   | .pair l r, s => (emit root cur l (emit root cur r s)).push .makePair none
   | .applyTo x f, s => (emit root cur x (emit root cur f s)).push .apply none
   | .list items, s => (emitList root cur items s).push .makeList (some items.length)
-  | .cond onTrue c t, s =>
-    let s1 := emit root cur c s
-    let j := s1.jumps.size
-    let s2 := ((s1.pushJump 0).push (jumpIf onTrue) (some j)).push .putValue none
-    let join := s2.jumps.size
-    (s2.pushRoot ⟨.code t, j, [(.jumpTo, some join)], cur⟩).pushJump s2.instrs.size
+  | .cond onTrue c t, s => condTail cur onTrue t (emit root cur c s)
   | .chain arms none, s =>
     let r := emitArms root cur arms s
     finishChain cur (chainNoFinal arms r.1) r.2
   | .chain arms (some e), s =>
     let r := emitArms root cur arms s
     finishChain cur (emit root cur e r.1) r.2
-  | .and l r, s =>
-    let s1 := emit root cur l s
-    let j := s1.jumps.size
-    let s2 := (s1.pushJump 0).push .and (some j)
-    let join := s2.jumps.size
-    (s2.pushRoot ⟨.code r, j, [(.tis, none), (.jumpTo, some join)], cur⟩).pushJump s2.instrs.size
-  | .or l r, s =>
-    let s1 := emit root cur l s
-    let j := s1.jumps.size
-    let s2 := (s1.pushJump 0).push .or (some j)
-    let join := s2.jumps.size
-    (s2.pushRoot ⟨.code r, j, [(.tis, none), (.jumpTo, some join)], cur⟩).pushJump s2.instrs.size
+  | .and l r, s => logicalTail cur .and r (emit root cur l s)
+  | .or l r, s => logicalTail cur .or r (emit root cur l s)
   | .seq a b, s => emit root cur b ((emit root cur a s).push .updateValue none)
   | .sideAfter x body, s =>
     (emit root cur body ((emit root cur x s).push .startSideEffect none)).push .endSideEffect none
@@ -147,13 +148,15 @@ def emitArms (root cur : Nat) : List (Bool × Expr F × Expr F) → LState F →
     (r.1, (t, j) :: r.2)
 end
 
-/-- "append the terminator unless the last instruction already equals it": `last` is the last instruction
-of the stream when the root's own code is complete (fixed before the first terminator is looked at, as in
-`build`); an instruction counts only when this root has emitted something (`start` = where it began) -/
+/-- "append the terminator unless the last instruction is already an `EndExpression` that equals it": `last` is
+the last instruction of the stream when the root's own code is complete (fixed before the first terminator is
+looked at, as in `build`); an instruction counts only when this root has emitted something (`start` = where it
+began); only an explicit end of expression can stand in for the root's own (build.rs after commit 7afc7c5) -/
 def addTerms (start : Nat) (last : Option Instr) : List Instr → LState F → LState F
   | [], s => s
   | t :: ts, s =>
-    addTerms start last ts (if last = some t ∧ s.instrs.size > start then s else s.push t.1 t.2)
+    addTerms start last ts
+      (if last = some t ∧ t.1 = .endExpression ∧ s.instrs.size > start then s else s.push t.1 t.2)
 
 /-- lay out one root: patch its jump entry, main line, terminators -/
 def layoutRoot (bodies : List (Nat × Expr F)) (r : Root F) (s : LState F) : LState F :=
